@@ -46,7 +46,7 @@ def get_mos_files(
         try:
             contents = page['Contents']
         except KeyError:
-            break
+            continue
 
         for file in contents:
             key = file['Key']
